@@ -17,6 +17,7 @@ import (
 	"strconv"
 	"strings"
 	"sync"
+	"syscall"
 	"time"
 )
 
@@ -484,14 +485,55 @@ func loadFactor() float64 {
 	return x
 }
 
+// acquireGlobalSlot takes one of the machine-wide solver slots (advisory file locks under the
+// system temp directory; a run that cannot create them is not limited). nil: cancelled.
+func acquireGlobalSlot(ctx context.Context) func() {
+	n := runtime.NumCPU() + runtime.NumCPU()/4
+	dir := filepath.Join(os.TempDir(), "govc-slots")
+	if err := os.MkdirAll(dir, 0o777); err != nil {
+		return func() {}
+	}
+	start := int(time.Now().UnixNano() % int64(n))
+	for {
+		for i := 0; i < n; i++ {
+			k := (start + i) % n
+			f, err := os.OpenFile(filepath.Join(dir, fmt.Sprintf("slot-%d", k)), os.O_CREATE|os.O_RDWR, 0o666)
+			if err != nil {
+				return func() {}
+			}
+			if err := syscall.Flock(int(f.Fd()), syscall.LOCK_EX|syscall.LOCK_NB); err == nil {
+				return func() {
+					syscall.Flock(int(f.Fd()), syscall.LOCK_UN)
+					f.Close()
+				}
+			}
+			f.Close()
+		}
+		select {
+		case <-ctx.Done():
+			return nil
+		case <-time.After(20 * time.Millisecond):
+		}
+	}
+}
+
 func runOneSeed(ctx context.Context, sp solverSpec, file string, timeoutMs int, seed int) (status string, out string, secs float64) {
-	timeoutMs = int(float64(timeoutMs) * loadFactor())
+	timeoutMs0 := timeoutMs
 	select {
 	case solverSem <- struct{}{}:
 	case <-ctx.Done():
 		return "unknown", "cancelled", 0
 	}
 	defer func() { <-solverSem }()
+	// machine-wide limit on concurrent solver processes (several govc runs at once - checks,
+	// contract-writing sessions - would otherwise oversubscribe the cores many times over, and
+	// wall-clock solver limits would stop meaning anything)
+	release := acquireGlobalSlot(ctx)
+	if release == nil {
+		return "unknown", "cancelled", 0
+	}
+	defer release()
+	timeoutMs = int(float64(timeoutMs0) * loadFactor())
 	cctx, cancel := context.WithTimeout(ctx, time.Duration(timeoutMs+2000)*time.Millisecond)
 	defer cancel()
 	argv := sp.argv(file, timeoutMs, seed)
